@@ -96,7 +96,7 @@ def g2(prog, ctx, gate):
         ctx.ok("G2", "callback sees the consulted path", cb.where, "first argument is the gate's own unmodified file_name")
     else:
         ctx.fail("G2", "callback sees the consulted path", cb.where,
-                 "callback is given %s instead of the path that is opened" % (render(args[0]) if args else "nothing"),
+                 "callback is given %s, not the gate's own file_name (the exact path the file was found under)" % (render(args[0]) if args else "nothing"),
                  key="cb-arg0")
     if len(args) == 2 and query.refs_param(args[1], CBD) and not param_modified(gate, CBD):
         ctx.ok("G2", "callback gets the caller's data pointer", cb.where, "second argument is callback_data unchanged")
